@@ -798,6 +798,42 @@ func (f *invFlow) scan(fn *ssa.Function, b *invBind, depth int) {
 				if callee == nil || callee == fn || fnPkgPath(callee) != fnPkgPath(f.root) || len(callee.Blocks) == 0 {
 					continue
 				}
+				// arguments read out of the element of a literal table being ranged over
+				// (for _, e := range []entry{{…}, {…}} { f(e.a, e.b) }): one call per table row, each
+				// argument bound to what that row's literal stores
+				var table *ssa.Alloc
+				fieldOf := map[int]int{}
+				for i, a := range x.Call.Args {
+					if al, fld, ok := tableElemField(a); ok && (table == nil || table == al) {
+						table = al
+						fieldOf[i] = fld
+					}
+				}
+				if table != nil {
+					rows := tableStores(table)
+					var ks []int
+					for k := range rows {
+						ks = append(ks, k)
+					}
+					sort.Ints(ks)
+					for _, k := range ks {
+						nb := &invBind{params: map[*ssa.Parameter]ssa.Value{}, up: b}
+						for i, prm := range callee.Params {
+							if i >= len(x.Call.Args) {
+								continue
+							}
+							if fld, isT := fieldOf[i]; isT {
+								if v, has := rows[k][fld]; has {
+									nb.params[prm] = v
+								}
+								continue
+							}
+							nb.params[prm] = x.Call.Args[i]
+						}
+						f.scan(callee, nb, depth+1)
+					}
+					continue
+				}
 				nb := &invBind{params: map[*ssa.Parameter]ssa.Value{}, up: b}
 				for i, prm := range callee.Params {
 					if i < len(x.Call.Args) {
@@ -808,6 +844,79 @@ func (f *invFlow) scan(fn *ssa.Function, b *invBind, depth int) {
 			}
 		}
 	}
+}
+
+// tableElemField: v is field `fld` of the element of a local array literal selected by a (loop) index.
+func tableElemField(v ssa.Value) (*ssa.Alloc, int, bool) {
+	var ia *ssa.IndexAddr
+	fld := -1
+	switch x := v.(type) {
+	case *ssa.Field:
+		if ld, ok := x.X.(*ssa.UnOp); ok && ld.Op == token.MUL {
+			ia, _ = ld.X.(*ssa.IndexAddr)
+			fld = x.Field
+		}
+	case *ssa.UnOp:
+		if x.Op == token.MUL {
+			if fa, ok := x.X.(*ssa.FieldAddr); ok {
+				ia, _ = fa.X.(*ssa.IndexAddr)
+				fld = fa.Field
+				// the element was first copied into a local (`for _, e := range table`)
+				if la, isAlloc := fa.X.(*ssa.Alloc); isAlloc && ia == nil {
+					if sv := uniqueStore(la); sv != nil {
+						if ld, ok := sv.(*ssa.UnOp); ok && ld.Op == token.MUL {
+							ia, _ = ld.X.(*ssa.IndexAddr)
+						}
+					}
+				}
+			}
+		}
+	}
+	if ia == nil || fld < 0 {
+		return nil, 0, false
+	}
+	base := ia.X
+	if sl, ok := base.(*ssa.Slice); ok {
+		base = sl.X
+	}
+	al, ok := base.(*ssa.Alloc)
+	if !ok {
+		return nil, 0, false
+	}
+	if _, isArr := al.Type().(*types.Pointer).Elem().Underlying().(*types.Array); !isArr {
+		return nil, 0, false
+	}
+	return al, fld, true
+}
+
+// tableStores: row index → field index → value stored by the literal.
+func tableStores(al *ssa.Alloc) map[int]map[int]ssa.Value {
+	out := map[int]map[int]ssa.Value{}
+	for _, r := range *al.Referrers() {
+		ia, ok := r.(*ssa.IndexAddr)
+		if !ok {
+			continue
+		}
+		k, isC := constInt(ia.Index)
+		if !isC {
+			continue
+		}
+		for _, r2 := range *ia.Referrers() {
+			fa, ok := r2.(*ssa.FieldAddr)
+			if !ok {
+				continue
+			}
+			for _, r3 := range *fa.Referrers() {
+				if st, ok := r3.(*ssa.Store); ok && st.Addr == fa {
+					if out[int(k)] == nil {
+						out[int(k)] = map[int]ssa.Value{}
+					}
+					out[int(k)][fa.Field] = st.Val
+				}
+			}
+		}
+	}
+	return out
 }
 
 // lookupKeys: the key sources of accumulator lookups a value derives from.
@@ -1220,7 +1329,7 @@ func checkC04(c *Ctx, e *Env) {
 	for _, s := range inv.AllWrites() {
 		if (s.Table.Name == "BatchBalance" || s.Table.Name == "BatchSupply") && (s.Kind == "delete" || s.Kind == "deleterange") {
 			nDel++
-			c.Violate("C04.DEL", funcKey(s.Fn)+"#"+s.Table.Name+"."+s.Method, p.Pos(s.Call.Pos()), "deleting a "+s.Table.Name+" row erases retired/cancelled amounts", nil)
+			c.Violate("C04.DEL", funcKey(s.Fn)+"#"+s.Table.Name+"."+s.Method, p.Pos(s.At()), "deleting a "+s.Table.Name+" row erases retired/cancelled amounts", nil)
 		}
 	}
 	if nDel == 0 {
